@@ -138,3 +138,17 @@ Fixpoint py_dict_setadd {K V : Type} (eqk : K -> K -> bool) (eqv : V -> V -> boo
 
 (* l.append(x) *)
 Definition py_append {A : Type} (l : list A) (x : A) : list A := l ++ [x].
+
+(* range(a, b) *)
+Definition py_range (a b : Z) : list Z := map (fun i => a + Z.of_nat i) (seq 0 (Z.to_nat (b - a))).
+
+(* max(<iterable of int>): ValueError when it is empty *)
+Definition py_max (l : list Z) : res Z :=
+  match l with [] => Raise ValueError | x :: t => Ok (fold_left Z.max t x) end.
+
+(* OrderedDict.move_to_end(k): KeyError when the key is missing *)
+Definition py_dict_move_to_end {K V : Type} (eqb : K -> K -> bool) (d : list (K * V)) (k : K) : res (list (K * V)) :=
+  match find (fun kv => eqb k (fst kv)) d with
+  | None => Raise KeyError
+  | Some kv => Ok (filter (fun kv' => negb (eqb k (fst kv'))) d ++ [kv])
+  end.
